@@ -32,9 +32,13 @@ for sid in ids:
         subprocess.run(["git", "-C", repo, "apply", patch], check=True)
     try:
         env = dict(os.environ, VERIF_REPO=repo, VERIF_COQCHK="0")
-        p = subprocess.run([os.path.join(V, "check"), prop, "--tier", tier], env=env, stdout=subprocess.PIPE, stderr=subprocess.STDOUT, text=True)
-        viol = [l for l in p.stdout.split("\n") if l.startswith("VIOLATION")]
-        caught = p.returncode == 1 and bool(viol)
+        caught, viol, p = False, [], None
+        for cp in meta.get("checked_by", [prop]):     # a change may be visible only to another property's harness
+            p = subprocess.run([os.path.join(V, "check"), cp, "--tier", tier], env=env, stdout=subprocess.PIPE, stderr=subprocess.STDOUT, text=True)
+            viol = [l for l in p.stdout.split("\n") if l.startswith("VIOLATION")]
+            caught = p.returncode == 1 and bool(viol)
+            if caught:
+                break
         results[sid] = {"property": prop, "caught": caught, "violation_lines": viol, "rc": p.returncode}
         print("%-28s %s %s %s" % (sid, prop, "CAUGHT" if caught else "MISSED", viol[0] if viol else p.stdout.strip().split("\n")[-1][:200]))
         if caught and viol:
